@@ -195,7 +195,7 @@ func expected(cs *Case, class string) *expect {
 		return &expect{res: A}
 	}
 	A = m.operand(cs.A, cs.slotVar(1), &next)
-	if cs.Op != "VequalsE" && cs.Op != "MequalsE" {
+	if cs.Op != "VequalsE" && cs.Op != "MequalsE" && !isWalk(cs.Op) {
 		B = m.operand(cs.B, cs.slotVar(2), &next)
 	}
 	R = m.operand(cs.R, cs.slotVar(0), &next)
@@ -278,6 +278,8 @@ func expected(cs *Case, class string) *expect {
 			}
 		}
 		e.res = R // the receiver must be left as it was
+	case "VjointWalk", "VcjointWalk", "MjointWalk":
+		e.res = R // a traversal leaves the receiver as it was
 	case "Vreset", "Mreset":
 		e.res = make([]jet, len(R))
 	case "MsetIdentity":
